@@ -58,18 +58,8 @@ def check(rep, tier, seed):
         cases.append(sched.gen_schedule(r, 4, r.sample(KEY_POOL[:8], 2), ENGINES[i % 3]))
     cases += [iterfault_case(seed, i, (ENGINES + ["metrics-memkv"])[i % 5]) for i in range(10 if tier == "quick" else 90)]
     core.run_cases(cases)
-    for c in cases:
-        rep.count_case(c)
-        hit = hist.check_reads(c)
-        if hit:
-            desc, sig = hit
-            if core.handle_oracle_hit(rep, "C03", sig.replace("=", ""), c, desc, sig,
-                                      shrink_fn=lambda x: hist.check_reads(x) is not None):
-                return
-            continue
-        if c.diff() is not None:
-            core.handle_diff(rep, "C03", "correspondence", c)
-            return
+    if core.judge(rep, "C03", cases, hist.check_reads, shrink_fn=lambda x: hist.check_reads(x) is not None):
+        return
     rep.assumptions += ["reads at revisions the node has reported readable (<= committed) and >= compaction floor",
                         "non-empty values; count with EnableEtcdCompatibility=true",
                         "engines: memkv, badger, tikv mock cluster, metrics wrapper over badger"]
